@@ -564,6 +564,21 @@ class FileStorage(Storage):
         return tempstore.create()
 
 
+class RamLock(object):
+    """Thread lock with the same interface as the file locks: ``acquire()``
+    does not block unless asked to.
+    """
+
+    def __init__(self):
+        self._lock = Lock()
+
+    def acquire(self, blocking=False):
+        return self._lock.acquire(blocking)
+
+    def release(self):
+        self._lock.release()
+
+
 class RamStorage(Storage):
     """Storage object that keeps the index in memory.
     """
@@ -628,7 +643,7 @@ class RamStorage(Storage):
 
     def lock(self, name):
         if name not in self.locks:
-            self.locks[name] = Lock()
+            self.locks[name] = RamLock()
         return self.locks[name]
 
     def temp_storage(self, name=None):
